@@ -1047,6 +1047,25 @@ def rule_R3(ctx, entry_keys, chain_dict):
     fams = set()
     for fi in readers:
         ls = _io.load_sites(fi.node, fi.module)
+        if not ls:
+            # the load may live in a helper that only unpickles and returns the object
+            hs = [(c, _io.loader_helper(prog, c, fi.module)) for c in calls(fi.node)]
+            hs = [(c, g) for c, g in hs if g is not None]
+            if len(hs) == 1:
+                hc, g = hs[0]
+                pmr = parents(fi.node)
+                hst = pmr.get(id(hc))
+                if isinstance(hst, ast.Assign) and len(hst.targets) == 1 and isinstance(hst.targets[0], ast.Name):
+                    gls = _io.load_sites(g.node, g.module)
+                    gpm = parents(g.node)
+                    frame = _io.with_binding(gls[0][1].id, gls[0][0], g.node, gpm) if isinstance(gls[0][1], ast.Name) else None
+                    if frame is not None and isinstance(frame[1].context_expr, ast.Call):
+                        info = _io.opener_info(frame[1].context_expr, g.module)
+                        if info:
+                            fams.add((info[0], _io.canon(gls[0][0], g.module).replace("load", "")))
+                    rd.scan(fi, {hst.targets[0].id: "RESULTS"})
+                    ctx.analysed(fi, g)
+                    continue
         if len(ls) != 1:
             raise AnalysisError("%s: expected one pickle.load (see C20), found %d" % (fi.qualname, len(ls)))
         pm = parents(fi.node)
